@@ -1,3 +1,4 @@
+import Cuke.Lemmas.SchedTrip
 import Cuke.Lemmas.SchedSeq
 import Cuke.Lemmas.SchedCount
 import Cuke.Lemmas.Sched
@@ -373,5 +374,44 @@ theorem lts_at_most_budget_plus_one_attempts (c : SCfg) (hwf : WF c) (ls : List 
 
 /-- non-vacuity: in the example run scenario 1 (budget 2) is dispatched twice, with `current` 0 and 1 -/
 example : Cuke.SchedCount.dispatched rcfg rlog = [(1, 0), (1, 1)] := by decide +kernel
+
+/-! ## The delay clause over whole runs -/
+
+open Cuke.SchedInv in
+/-- **Whatever a `features.get` hands out was ready.** In every log replayed without a disagreement, of any length: every
+    entry in the batch handed out by a `features.get` (label `GET2`, clock reading `t2`; `t1` = the reading of the `GET1`
+    that opened it, `t2` itself when `get(Some(0))` returned early) was ready at `t1` or at `t2` — for an entry retried
+    with a delay `d` and stamped `t0` at its re-insertion this means `d < t1 − t0` or `d < t2 − t0` (`delay_respected`):
+    no retry is dispatched before its delay has elapsed since the failed attempt ended, whatever the other scenarios do. -/
+theorem lts_dispatched_entries_were_ready (c : SCfg) (pre : List Label) (t2 : Nat) (slots : Slots) (got : List Nat)
+    (sleep : Bool) (running : Nat)
+    (hc : SchedOrd.Clean0 (accept c (pre ++ [.get2 t2 slots got sleep running])) = true) :
+    ∀ e ∈ (accept c (pre ++ [.get2 t2 slots got sleep running])).batch,
+      e.ready (((accept c pre).lastGet1.map (·.1)).getD t2) = true ∨ e.ready t2 = true := by
+  have hstep : accept c (pre ++ [.get2 t2 slots got sleep running]) =
+      stepL c (accept c pre) (.get2 t2 slots got sleep running) := by simp [accept, List.foldl_append]
+  rw [hstep] at hc ⊢
+  have hc0 := SchedOrd.clean0_step_mono c _ _ hc
+  obtain ⟨_, hv, hlg⟩ := SchedTrip.ww_get2_explicit c (accept c pre) t2 slots got sleep running
+    (by simpa [SchedOrd.Clean0] using hc0) (by simpa [SchedOrd.Clean0] using hc)
+  have hb : (stepL c (accept c pre) (.get2 t2 slots got sleep running)).batch =
+      (getBatch (get2ready (get2c (accept c pre)) t2 got) (accept c pre).slots.ask (accept c pre).q).1 :=
+    congrArg SchedTrip.W.batch hv
+  intro e he
+  rw [hb] at he
+  have hr := SchedTrip.getBatch_all_ready' _ _ _ e he
+  unfold get2ready at hr
+  simp only [hlg] at hr
+  cases h1 : e.ready (((accept c pre).lastGet1.map (·.1)).getD t2) with
+  | true => exact Or.inl rfl
+  | false =>
+    right
+    cases h2 : e.ready t2 with
+    | true => rfl
+    | false => simp [h1, h2] at hr
+
+/-- non-vacuity: in `rlog` the second `features.get` hands out the retried entry -/
+example : SchedOrd.Clean0 (accept rcfg (rlog.take 19)) = true ∧ (accept rcfg (rlog.take 19)).batch.map (·.id) = [11] := by
+  decide +kernel
 
 end Cuke.C05
